@@ -46,25 +46,51 @@ pub fn run(input: &Value) -> Case {
     let bg_rgba = bg.map(|b| RGBA::new(b[0], b[1], b[2], b[3]));
     let bg_eff = bg_rgba.unwrap_or_else(|| RGBA::new(0, 0, 0, 255));
     let imgs: Vec<Img> = input["imgs"].as_array().map(|a| a.iter().map(parse_img).collect()).unwrap_or_default();
-    // a draw sequence: a number = draw that image; ["size", n] = override the accounted cache size
+    // the history on ONE handler: a number k = draw image k; ["d", k, ctor] = draw it through another construction
+    // path (0 crop of the shared buffer, 1 clone of that, 2 Image::new(view) = compact copy, 3 Image::from(owned copy));
+    // ["size", n] = override the accounted cache size; ["erase", k]; ["handle"]; ["fail", k, limit] = draw into a writer
+    // that accepts `limit` bytes and then fails
     #[derive(Clone)]
     enum Op {
-        Draw(usize),
+        Draw(usize, u64),
         Size(usize),
+        Erase(usize),
+        Handle,
+        Fail(usize, usize),
     }
     let ops: Vec<Op> = input["draws"]
         .as_array()
         .map(|a| {
             a.iter()
                 .map(|v| match v.as_u64() {
-                    Some(k) => Op::Draw(k as usize),
-                    None => Op::Size(v[1].as_u64().unwrap_or(0) as usize),
+                    Some(k) => Op::Draw(k as usize, 0),
+                    None => match v[0].as_str().unwrap_or("") {
+                        "d" => Op::Draw(v[1].as_u64().unwrap_or(0) as usize, v[2].as_u64().unwrap_or(0)),
+                        "erase" => Op::Erase(v[1].as_u64().unwrap_or(0) as usize),
+                        "handle" => Op::Handle,
+                        "fail" => Op::Fail(v[1].as_u64().unwrap_or(0) as usize, v[2].as_u64().unwrap_or(0) as usize),
+                        _ => Op::Size(v[1].as_u64().unwrap_or(0) as usize),
+                    },
                 })
                 .collect()
         })
         .unwrap_or_default();
-    let draws: Vec<usize> = ops.iter().filter_map(|o| if let Op::Draw(k) = o { Some(*k) } else { None }).collect();
-    let has_size_op = ops.len() > draws.len();
+    let draws: Vec<usize> = ops
+        .iter()
+        .filter_map(|o| match o {
+            Op::Draw(k, _) | Op::Fail(k, _) => Some(*k),
+            _ => None,
+        })
+        .collect();
+    let has_size_op = ops.iter().any(|o| matches!(o, Op::Size(_)));
+    let has_fail_op = ops.iter().any(|o| matches!(o, Op::Fail(..)));
+    let has_nop = ops.iter().any(|o| matches!(o, Op::Erase(_) | Op::Handle));
+    let has_ctor = ops.iter().any(|o| matches!(o, Op::Draw(_, c) if *c != 0));
+    let boxed = input["boxed"].as_bool().unwrap_or(false);
+    let twin_bg: Option<[u8; 4]> = input["twin_bg"].as_array().map(|a| {
+        let v: Vec<u8> = a.iter().map(|x| x.as_u64().unwrap_or(0) as u8).collect();
+        [v[0], v[1], v[2], v[3]]
+    });
 
     // parents: every distinct pixel buffer once (crops of one parent share it, as Image::crop does);
     // the views are cut out of the parents by the Coq side (Corr/C12Corr.view_rows)
@@ -157,8 +183,42 @@ pub fn run(input: &Value) -> Case {
     let parents_for_run = parents.clone();
     let img_parent2 = img_parent.clone();
     let ops2 = ops.clone();
-    let outs: Option<Vec<(Vec<u8>, usize, usize)>> = catch(move || {
-        let mut handler = SixelImageHandler::new(bg_rgba);
+    // one observation per op: Draw -> bytes; Nop -> bytes (must be none); Fail -> (accepted bytes, draw returned Err)
+    enum Obs {
+        Draw(Vec<u8>, usize, usize),
+        Nop(Vec<u8>, usize, usize),
+        Fail(Vec<u8>, bool, usize, usize),
+        None,
+    }
+    struct FailAfter {
+        limit: usize,
+        got: Vec<u8>,
+    }
+    impl std::io::Write for FailAfter {
+        fn write(&mut self, buf: &[u8]) -> std::io::Result<usize> {
+            let room = self.limit - self.got.len();
+            if room == 0 && !buf.is_empty() {
+                return Err(std::io::Error::new(std::io::ErrorKind::Other, "writer full"));
+            }
+            let n = room.min(buf.len());
+            self.got.extend_from_slice(&buf[..n]);
+            Ok(n)
+        }
+        fn flush(&mut self) -> std::io::Result<()> {
+            Ok(())
+        }
+    }
+    let outs: Option<Vec<Obs>> = catch(move || {
+        // `boxed`: every call goes through `impl ImageHandler for Box<T>` (what a terminal holds) instead of the
+        // inherent impl of the trait for SixelImageHandler
+        let mut handler: Box<SixelImageHandler> = Box::new(SixelImageHandler::new(bg_rgba));
+        fn hdraw(h: &mut Box<SixelImageHandler>, boxed: bool, out: &mut dyn std::io::Write, img: &Image) -> Result<(), surf_n_term::Error> {
+            if boxed {
+                <Box<SixelImageHandler> as ImageHandler>::draw(h, out, img, Position::origin())
+            } else {
+                <SixelImageHandler as ImageHandler>::draw(&mut **h, out, img, Position::origin())
+            }
+        }
         let parent_imgs: Vec<Image> = parents_for_run
             .iter()
             .map(|(w, h, data)| {
@@ -166,24 +226,81 @@ pub fn run(input: &Value) -> Case {
                 Image::from_parts(pixels.into(), Shape::from(Size::new(*h, *w)))
             })
             .collect();
-        let mut outs = vec![];
-        for op in ops2 {
-            let d = match op {
-                Op::Draw(d) => d,
-                Op::Size(n) => {
-                    handler.verif_set_cache_size(n);
-                    continue;
-                }
-            };
+        let make = |d: usize, ctor: u64| -> Image {
             let parent = &parent_imgs[img_parent2[d]];
-            let img = match crops[d] {
+            let view = match crops[d] {
                 None => parent.clone(),
                 Some((r0, r1, c0, c1)) => parent.crop(r0..r1, c0..c1),
             };
-            let mut out: Vec<u8> = Vec::new();
-            handler.draw(&mut out, &img, Position::origin()).expect("draw");
-            let (size, entries) = handler.verif_cache_state();
-            outs.push((out, size, entries));
+            match ctor {
+                1 => view.clone(),
+                2 => Image::new(&view),
+                3 => Image::from(view.to_owned_surf()),
+                _ => view,
+            }
+        };
+        // another handler with another background sees every image first: handlers must not share anything
+        if let Some(tb) = twin_bg {
+            let mut twin = SixelImageHandler::new(Some(RGBA::new(tb[0], tb[1], tb[2], tb[3])));
+            for d in 0..crops.len() {
+                let mut sink: Vec<u8> = Vec::new();
+                let _ = twin.draw(&mut sink, &make(d, 0), Position::origin());
+            }
+        }
+        let kind = if boxed {
+            <Box<SixelImageHandler> as ImageHandler>::kind(&handler)
+        } else {
+            <SixelImageHandler as ImageHandler>::kind(&**&handler)
+        };
+        assert_eq!(kind, surf_n_term::image::ImageHandlerKind::Sixel);
+        let mut outs = vec![];
+        for op in ops2 {
+            match op {
+                Op::Size(n) => {
+                    handler.verif_set_cache_size(n);
+                    outs.push(Obs::None);
+                }
+                Op::Draw(d, ctor) => {
+                    let img = make(d, ctor);
+                    let mut out: Vec<u8> = Vec::new();
+                    hdraw(&mut handler, boxed, &mut out, &img).expect("draw");
+                    let (size, entries) = handler.verif_cache_state();
+                    outs.push(Obs::Draw(out, size, entries));
+                }
+                Op::Erase(d) => {
+                    let img = make(d, 0);
+                    let mut out: Vec<u8> = Vec::new();
+                    let pos = if d % 2 == 0 { None } else { Some(Position::origin()) };
+                    if boxed {
+                        <Box<SixelImageHandler> as ImageHandler>::erase(&mut handler, &mut out, &img, pos).expect("erase");
+                    } else {
+                        <SixelImageHandler as ImageHandler>::erase(&mut **&mut handler, &mut out, &img, pos).expect("erase");
+                    }
+                    let (size, entries) = handler.verif_cache_state();
+                    outs.push(Obs::Nop(out, size, entries));
+                }
+                Op::Handle => {
+                    let mut out: Vec<u8> = Vec::new();
+                    let ev = surf_n_term::TerminalEvent::CursorPosition(Position::origin());
+                    let handled = if boxed {
+                        <Box<SixelImageHandler> as ImageHandler>::handle(&mut handler, &mut out, &ev).expect("handle")
+                    } else {
+                        <SixelImageHandler as ImageHandler>::handle(&mut **&mut handler, &mut out, &ev).expect("handle")
+                    };
+                    if handled {
+                        out.push(1); // a sixel handler has nothing to handle
+                    }
+                    let (size, entries) = handler.verif_cache_state();
+                    outs.push(Obs::Nop(out, size, entries));
+                }
+                Op::Fail(d, limit) => {
+                    let img = make(d, 0);
+                    let mut w = FailAfter { limit, got: vec![] };
+                    let res = hdraw(&mut handler, boxed, &mut w, &img);
+                    let (size, entries) = handler.verif_cache_state();
+                    outs.push(Obs::Fail(w.got, res.is_err(), size, entries));
+                }
+            }
         }
         outs
     });
@@ -194,21 +311,32 @@ pub fn run(input: &Value) -> Case {
             json!("panic"),
         ),
         Some(outs) => {
-            let mut it = outs.iter();
             let mut terms = vec![];
-            for op in &ops {
-                match op {
-                    Op::Size(n) => terms.push(format!("DSize {}", n)),
-                    Op::Draw(d) => {
-                        let (o, size, entries) = it.next().expect("one output per draw");
+            let mut js = vec![];
+            for (op, o) in ops.iter().zip(outs.iter()) {
+                match (op, o) {
+                    (Op::Size(n), _) => terms.push(format!("DSize {}", n)),
+                    (Op::Draw(d, _), Obs::Draw(o, size, entries)) => {
                         terms.push(format!("DDraw {}%nat {} {} {}%nat", d, cbytes(o), size, entries));
+                        js.push(json!([String::from_utf8_lossy(o), size, entries]));
                     }
+                    (_, Obs::Nop(o, size, entries)) => {
+                        terms.push(format!("DNop {} {} {}%nat", cbytes(o), size, entries));
+                        js.push(json!(["nop", o.len(), size, entries]));
+                    }
+                    // a writer that took everything is an ordinary draw
+                    (Op::Fail(d, _), Obs::Fail(o, false, size, entries)) => {
+                        terms.push(format!("DDraw {}%nat {} {} {}%nat", d, cbytes(o), size, entries));
+                        js.push(json!([String::from_utf8_lossy(o), size, entries]));
+                    }
+                    (Op::Fail(d, limit), Obs::Fail(o, true, size, entries)) => {
+                        terms.push(format!("DFail {}%nat {} {} {} {}%nat", d, limit, cbytes(o), size, entries));
+                        js.push(json!(["failed", String::from_utf8_lossy(o), size, entries]));
+                    }
+                    _ => terms.push("DNop [0] 0 0%nat".to_string()),
                 }
             }
-            (
-                clist(terms),
-                Value::Array(outs.iter().map(|o| json!([String::from_utf8_lossy(&o.0), o.1, o.2])).collect()),
-            )
+            (clist(terms), Value::Array(js))
         }
     };
     let mut j = input.clone();
@@ -226,11 +354,17 @@ pub fn run(input: &Value) -> Case {
     };
     let mut tags = vec![
         format!("colors={}", match max_colors { 0..=1 => "1", 2..=16 => "2-16", 17..=256 => "17-256", _ => ">256" }),
+        format!("colors_at_limit={}", match max_colors { 255 => "255", 256 => "256", 257 => "257", _ => "no" }),
         format!("alpha={}", any_alpha),
         format!("crop={}", any_crop),
         format!("crops_of_shared_buffer={}", shared_parent),
         format!("repeated={}", repeated),
         format!("eviction_forced={}", has_size_op),
+        format!("failing_writer={}", has_fail_op),
+        format!("erase_or_handle={}", has_nop),
+        format!("other_constructors={}", has_ctor),
+        format!("twin_handler={}", twin_bg.is_some()),
+        format!("boxed_handler={}", boxed),
         format!("bg={}", match bg { None => "default", Some(b) if b[3] == 255 => "opaque", Some(_) => "translucent" }),
         format!("wide_over_255={}", widths.iter().any(|w| *w > 255)),
         format!("subsampled_in_draw={}", heights.iter().zip(widths.iter()).any(|(h, w)| (h / 6) * 6 * w >= 51200)),
@@ -441,9 +575,143 @@ fn gen_crop_siblings(rng: &mut Rng, thorough: bool) -> Value {
         im["crop"] = json!([r0, r0 + vh, c0, c0 + vw]);
         imgs.push(im);
     }
-    let mut draws: Vec<usize> = (0..n).collect();
-    draws.extend(0..n);
+    // sometimes the parent itself is one of the views; the views are drawn in one order and then in the
+    // reverse order (whichever view of a buffer is seen first must not decide what the others look like)
+    if rng.chance(1, 2) {
+        let mut im = parent.clone();
+        im["crop"] = Value::Null;
+        let at = rng.below(imgs.len() as u64 + 1) as usize;
+        imgs.insert(at, im);
+    }
+    let n = imgs.len();
+    let mut draws: Vec<Value> = (0..n).map(|k| json!(k)).collect();
+    draws.extend((0..n).rev().map(|k| json!(["d", k, rng.below(4)])));
     json!({"bg": Value::Null, "imgs": imgs, "draws": draws})
+}
+
+/// a multi-step history on one handler through the whole API surface: draws through different
+/// construction paths (crop, clone, Image::new, Image::from), erase, handle, draws into a failing writer
+/// followed by ordinary draws of the same image, another handler with another background in between
+fn gen_history(rng: &mut Rng, thorough: bool) -> Value {
+    let n = 1 + rng.below(3) as usize;
+    let imgs: Vec<Value> = (0..n)
+        .map(|_| {
+            let mut im = gen_image(rng, thorough);
+            let mut guard = 0;
+            while im["w"].as_u64().unwrap_or(0) * im["h"].as_u64().unwrap_or(0) > 500 && guard < 50 {
+                im = gen_image(rng, thorough);
+                guard += 1;
+            }
+            im
+        })
+        .collect();
+    let mut draws: Vec<Value> = vec![];
+    for _ in 0..(4 + rng.below(6)) {
+        let k = rng.below(n as u64);
+        match rng.below(8) {
+            0 => draws.push(json!(["erase", k])),
+            1 => draws.push(json!(["handle"])),
+            2 | 3 => {
+                // fail after 0, a few, or a few hundred bytes; then the same image again
+                let limit = *rng.pick(&[0u64, 1, 3, 17, 64, 300]);
+                draws.push(json!(["fail", k, limit]));
+                if rng.chance(2, 3) {
+                    draws.push(json!(["d", k, rng.below(4)]));
+                }
+            }
+            _ => draws.push(json!(["d", k, rng.below(4)])),
+        }
+    }
+    let bg = if rng.chance(1, 2) { json!([rng.byte(), rng.byte(), rng.byte(), 255]) } else { Value::Null };
+    let mut v = json!({"bg": bg, "imgs": imgs, "draws": draws});
+    if rng.chance(1, 2) {
+        v["twin_bg"] = json!([rng.byte(), rng.byte(), rng.byte(), 255]);
+    }
+    if rng.chance(1, 2) {
+        v["boxed"] = json!(true);
+    }
+    v
+}
+
+/// an image whose DRAWN part (height a multiple of six) has exactly `ncol` distinct colours at sixel's 0..100
+/// resolution, not sub-sampled: the boundary of the "at most 256 colours -> exact" clause (255 / 256 / 257)
+fn gen_colour_count(rng: &mut Rng, ncol: usize) -> Value {
+    let ncol = ncol.max(1);
+    let mut levels: Vec<[u8; 3]> = vec![];
+    // levels near each other (a merge of two leaves is then a visible change of one level) or spread out
+    let near = rng.chance(1, 2);
+    let base = [rng.below(80) as u8, rng.below(80) as u8, rng.below(80) as u8];
+    let mut guard = 0;
+    while levels.len() < ncol && guard < 1_000_000 {
+        guard += 1;
+        let l = if near {
+            [base[0] + rng.below(12) as u8, base[1] + rng.below(12) as u8, base[2] + rng.below(12) as u8]
+        } else {
+            [rng.below(101) as u8, rng.below(101) as u8, rng.below(101) as u8]
+        };
+        if !levels.contains(&l) {
+            levels.push(l);
+        }
+    }
+    let byte = |l: u8| (l as f32 * 2.55).round() as u8;
+    let w = 8 + rng.below(30) as usize;
+    let h = (((ncol + w - 1) / w + 5) / 6).max(1) * 6 + if rng.chance(1, 3) { rng.below(6) as usize } else { 0 };
+    let drawn = (h - h % 6) * w;
+    let mut px: Vec<Rgb> = (0..h * w)
+        .map(|i| {
+            let l = levels[if i < drawn { i % levels.len() } else { 0 }];
+            [byte(l[0]), byte(l[1]), byte(l[2])]
+        })
+        .collect();
+    // shuffle inside the drawn part
+    for i in (1..drawn).rev() {
+        let j = rng.below(i as u64 + 1) as usize;
+        px.swap(i, j);
+    }
+    let data: Vec<Value> = px.iter().map(|p| json!([p[0], p[1], p[2], 255])).collect();
+    json!({"bg": Value::Null, "imgs": [{"w": w, "h": h, "data": data, "crop": Value::Null}], "draws": [0, 0]})
+}
+
+/// sizes aimed at the integer constants written in src/image.rs (and their neighbours): widths, heights
+/// (in bands and in rows), colour counts, run lengths
+fn gen_boundary(rng: &mut Rng) -> Value {
+    let bs = source_boundaries(&["src/image.rs"], 600);
+    let pick = |rng: &mut Rng, lo: u64, hi: u64, dflt: u64| -> u64 {
+        let c: Vec<u64> = bs.iter().copied().filter(|v| *v >= lo && *v <= hi).collect();
+        if c.is_empty() { dflt } else { *rng.pick(&c) }
+    };
+    let (w, h, ncol) = match rng.below(4) {
+        // colour count at a constant (255 / 256 / 257 ...): enough pixels, modest width
+        0 => {
+            let ncol = if rng.chance(1, 2) { *rng.pick(&[255usize, 256, 257]) } else { pick(rng, 2, 600, 256) as usize };
+            return gen_colour_count(rng, ncol);
+        }
+        // width at a constant
+        1 => (pick(rng, 1, 400, 255) as usize, 6, 2 + rng.below(3) as usize),
+        // height = constant rows, or constant bands
+        2 => {
+            let v = pick(rng, 1, 60, 6) as usize;
+            (1 + rng.below(12) as usize, if rng.chance(1, 2) { v } else { (v % 9) * 6 + rng.below(2) as usize }, 2 + rng.below(6) as usize)
+        }
+        // run length at a constant inside a wider row
+        _ => (pick(rng, 1, 300, 100) as usize + 3, 6, 2),
+    };
+    let pal = palette(rng, ncol.max(1));
+    let mut px: Vec<Rgb> = vec![pal[0]; w * h];
+    if ncol > 4 {
+        for (i, p) in px.iter_mut().enumerate() {
+            *p = pal[i % pal.len()];
+        }
+    } else {
+        // one long run of pal[0] of length w - 3 (a harvested constant), other colours at the ends
+        for r in 0..h {
+            for c in 0..w {
+                px[r * w + c] = if c == 0 || c + 2 >= w { pal[(r + c) % pal.len()] } else { pal[0] };
+            }
+        }
+    }
+    let data: Vec<Value> = px.iter().map(|p| json!([p[0], p[1], p[2], 255])).collect();
+    json!({"bg": Value::Null, "imgs": [{"w": w, "h": h, "data": data, "crop": Value::Null}], "draws": [0, 0]})
 }
 
 /// an image large enough (>= 51200 pixels) for ColorPalette::from_image to sub-sample it inside draw;
@@ -559,19 +827,30 @@ fn table_cases() -> Vec<Value> {
 pub fn generate(rng: &mut Rng, n: usize, tier: &str) -> Vec<Value> {
     let thorough = tier == "thorough";
     let mut v = table_cases();
+    // the boundary of the exactness clause, in every run
+    for ncol in [256usize, 255, 257, 256] {
+        v.push(gen_colour_count(rng, ncol));
+    }
     for i in 0..n {
         // one image above the sub-sampling threshold of from_image (51200 pixels) per 400 cases
         if i % 400 == 40 {
             v.push(gen_big(rng));
             continue;
         }
-        v.push(match i % 26 {
+        let mut x = match i % 26 {
             7 => gen_wide(rng),
             11 | 20 => gen_alpha_sweep(rng),
             5 | 14 => gen_eviction(rng, thorough),
             3 | 16 => gen_crop_siblings(rng, thorough),
+            9 | 22 => gen_history(rng, thorough),
+            1 | 13 | 24 => gen_boundary(rng),
             _ => gen_case(rng, thorough),
-        });
+        };
+        // any history may run behind `impl ImageHandler for Box<T>`
+        if x.get("boxed").is_none() && rng.chance(1, 3) {
+            x["boxed"] = json!(true);
+        }
+        v.push(x);
     }
     v
 }
